@@ -5,7 +5,7 @@ set -u
 cd /verif
 if [ -n "$(git -C /repo status --porcelain --untracked-files=no)" ]; then echo "/repo has uncommitted changes: refusing"; exit 2; fi
 SEEDS=${1:-"1 2 3 4"}; shift
-IDS=${@:-$(ls seeded | grep '^C0\|^C1[0-3]\|^C19')}
+IDS=${@:-$(ls seeded | grep '^C')}
 PIDS=""
 for id in $IDS; do
   pid=${id%%-*}
